@@ -798,6 +798,20 @@ def subst(tree, env):
     return tuple([tree[0]] + [subst(x, env) if isinstance(x, tuple) else x for x in tree[1:]])
 
 
+def fold_const(t):
+    """constant-fold boolean negation / comparisons of integer literals"""
+    if not isinstance(t, tuple) or not t:
+        return t
+    if t[0] == 'un' and t[1] == 'Not':
+        x = fold_const(t[2])
+        if x[0] == 'int' and x[1] in (0, 1):
+            return ('int', 1 - x[1])
+        return ('un', 'Not', x)
+    if t[0] == 'bin' and t[1] in ('Eq', 'Ne') and t[2][0] == 'int' and t[3][0] == 'int':
+        return ('int', int((t[2][1] == t[3][1]) == (t[1] == 'Eq')))
+    return t
+
+
 class PathExplorer:
     """Path-sensitive forward exploration of one function's CFG.
 
@@ -824,8 +838,10 @@ class PathExplorer:
         multi = set()
         for l, ds in fn.defs.items():
             nm = fn.local_name(l)
-            if nm is None or nm.startswith('_'):
+            if nm is not None and nm.startswith('_'):
                 continue
+            if nm is None and fn.local_ty(l) != 'bool':
+                continue  # unnamed: only the bool temporaries of `matches!` / `&&` / `||`
             real = [d for d in ds if d['kind'] in ('assign', 'call')]
             if len(real) > 1:
                 multi.add(l)
@@ -881,8 +897,8 @@ class PathExplorer:
             record = not is_log_term(t) and t.get('ds') != 'Await'
             cond = None
             if record:
-                cond = subst(fn.operand_tree(t['x']), envd)
-                if self.keep is not None and not self.keep(cond):
+                cond = fold_const(subst(fn.operand_tree(t['x']), envd))
+                if self.keep is not None and cond[0] != 'int' and not self.keep(cond):
                     record = False
             out = []
             vals = [v for v, _ in t['ts']]
